@@ -19,6 +19,8 @@ def run(ctx):
     okS, outS, exeS = vlib.build_runner()
     if okS:
         vlib.seq_differential(ctx, ScaleSpec(['heap']), exeS, proofs_ok, tag="scale")
+    else:
+        ctx.violation("harness-build", "the harness does not build against the current tree: " + outS[-1500:], {"build_output": outS[-4000:]}, failing_input=False)
     vlib.merge_parts(ctx, "cases = (ordering mode in {less natural, less reversed, less coarse(ties), cmp natural, cmp coarse}, initial slice incl. duplicate keys, "
                      "op sequence over few distinct priorities); distinct = hash of ops; non-trivial = >= 4 ops and a Pop/Peek value observed")
     vlib.handle_broken_proof(ctx)
